@@ -9,11 +9,6 @@ set_option linter.unusedSimpArgs false
 namespace Essential
 open Spec
 
-theorem Res.wp_bind' (x : Res ε α) (f : α → Res ε β) (Q : β → Prop) :
-    (x.bind f).wp Q = x.wp (fun a => (f a).wp Q) := by cases x <;> rfl
-theorem Res.wpA_bind' (x : Res ε α) (f : α → Res ε β) (Q : β → Prop) :
-    (x.bind f).wpA Q = x.wpA (fun a => (f a).wpA Q) := by cases x <;> rfl
-@[simp] theorem Res.bind_eq_bind (x : Res ε α) (f : α → Res ε β) : (x >>= f) = x.bind f := rfl
 
 
 /-- one step of the wp calculus -/
